@@ -33,6 +33,8 @@ fn main() {
         ("wire", "replay") => s_wire::replay(&inp),
         ("wire", "record") => s_wire::record(seed, &tier, &out),
         ("wire", "deep") => s_wire::deep(seed),
+        ("signer", "replay") => s_signer::replay(&inp, &tier),
+        ("signer", "record") => s_signer::record(seed, &tier, &out),
         ("selfcheck", _) => println!("{{\"rec\":\"ok\"}}"),
         (s, m) => {
             eprintln!("unknown suite/mode {} {}", s, m);
